@@ -41,6 +41,22 @@ package container
 //@   loop 0: invariant res != nil ==> (exists c cid.Cid :: seen(ctn, c) && has(ctn, c) && ctn[c] is *invocation.Token && ctn[c].(*invocation.Token) == res)
 //@   loop 0: invariant forall c cid.Cid :: {ctn[c]} seen(ctn, c) && ctn[c] is *invocation.Token && ctn[c].(*invocation.Token) != nil ==> ctn[c].(*invocation.Token) == res
 //@
+//@ // ---- C20: the typed iterators walk the container and write nothing ------------------------------------
+//@ func (Reader).GetAllDelegations
+//@   inline
+//@   assigns [C20] nothing
+//@ func (Reader).GetAllDelegations$1
+//@   requires yield != nil
+//@   assigns [C20] nothing
+//@   loop 0: invariant true
+//@ func (Reader).GetAllInvocations
+//@   inline
+//@   assigns [C20] nothing
+//@ func (Reader).GetAllInvocations$1
+//@   requires yield != nil
+//@   assigns [C20] nothing
+//@   loop 0: invariant true
+//@
 //@ // ---- C17 / C18: the byte-slice variants are the stream variants over the same bytes ---------------------
 //@ // cborErr / cborHas, carErr / carHas name the outcome of the stream readers as functions of the content
 //@ ghost func cborErr(c string) error
